@@ -10,6 +10,13 @@ impl<'tera> VirtualMachine<'tera> {
             r is Ok ==> final(state).block_buffer@ == interp_block(self, *old(state)),
     { unimplemented!() }
 }
+/// the state a render starts from: the caller's context as the user context, the given global context, and the
+/// block to capture (none for a full render)
+pub open spec fn started(s: State, context: &Context, gctx: &Context, block: Option<&str>) -> bool {
+    &&& s.context == context
+    &&& s.global_context == Some(gctx)
+    &&& match block { Some(b) => s.capture_block is Some && s.capture_block->Some_0@ == b@, None => s.capture_block is None }
+}
 /// what render_to writes into an empty writer that never fails (its own contract: obligation vm_render/render_to)
 pub uninterp spec fn rt_spec(vm: VirtualMachine, block: Option<Seq<char>>, ctx: &Context, gctx: &Context) -> Result<Seq<u8>, Error>;
 pub uninterp spec fn utf8_text(b: Seq<u8>) -> Option<Seq<char>>;
